@@ -42,6 +42,9 @@ def handle : List String → Option String
   | ["keeptr", cwd, er, eh, p] => do
     let cwd ← str cwd; let er ← optStr er; let eh ← optStr eh
     pure (exc (keepAffixes (fun x => translateEnv cwd er eh x dot) (← str p)))
+  | ["globtr", cwd, er, eh, p] => do
+    let cwd ← str cwd; let er ← optStr er; let eh ← optStr eh
+    pure (exc (globPath (fun x => translateEnv cwd er eh x dot) (← str p)))
   | ["keepback", cwd, er, eh, p] => do
     let cwd ← str cwd; let er ← optStr er; let eh ← optStr eh
     pure (exc (keepAffixes (fun x => translateBackEnv cwd er eh x dot) (← str p)))
